@@ -156,8 +156,9 @@ func featuresOf(id string, c runCase, v runVerdict) []string {
 			srcType := m[3]
 			nillableKind := strings.HasPrefix(srcType, "*") || strings.HasPrefix(srcType, "[]") || strings.HasPrefix(srcType, "map[")
 			op := convOpAt(c, m[1], strings.Split(strings.TrimPrefix(m[2], "."), "."))
-			if nillableKind && (op == "call" || op == "ref" || op == "method") {
-				// nil pointer / slice / map source whose conversion is a function or method call
+			if nillableKind && (op == "call" || op == "ref" || op == "method" || op == "toptr") {
+				// nil pointer / slice / map source whose conversion is not a plain nil-guarded
+				// builder: a function or method call, or value -> pointer
 				fs = append(fs, "update-nillable-via-call")
 			}
 		}
